@@ -7,19 +7,27 @@ CONFIG = dict(
     level_text=("Every DAG shape over 3-4 labelled events (quick: 5 with exact limits and no failure; thorough: 5 fully, 6 with a reduced configuration list) and "
                 "rapid-drawn DAGs with up to 6 (thorough 7) pushes are run under ALL arrival orders; larger histories "
                 "(3-12 events, duplicates, omitted events, missing parents, interleaved Clear, outside connections, limit "
-                "classes {0,1,exact-1,exact,ample}, failing Check/Process) are sampled with rapid-drawn orders."),
+                "classes {0,1,exact-1,exact,ample}, failing Check/Process) are sampled with rapid-drawn orders. "
+                "A quarter of the drawn cases (Perms, Random) and an extra configuration list of the enumeration (3-4 events, thorough 5: nothing fails / each "
+                "single event failing Process or Check / one duplicate push) run against a buffer built WITHOUT a Released callback "
+                "(Callback.Released == nil, supported by the buffer); the generator biases parents towards triangles (a parent of a parent) "
+                "and, in a third of the failing cases, lets exactly one multi-parent event fail, so that a waiting event fails inside a nested cascade."),
     level_note=NOTE_COMMON + (" Sequential driver only (the concurrent case belongs to C28). The harness owns Exists/Get: an "
                               "event is connected once Process returned nil for it (or once the harness connected it outside the buffer)."),
     rule=("Evaluation = one (DAG, configuration) case; for TestC14Enum/TestC14Perms a case runs every arrival order of its "
           "pushes (classes orders_* count single histories), for TestC14Random it is one drawn history. Each pushed copy is its "
           "own wrapper object with its own peer string. Oracle per history: Process(e) only while all parents are connected; per "
-          "copy at most one Process call and none after its Released; Released carries the copy's peer; every pushed copy "
+          "copy at most one Process call and at most one Check call (Check is the first step of handing a copy to processing) and none after its Released; Released carries the copy's peer; every pushed copy "
           "released exactly once by every Clear; after every PushEvent Total() and the copies pushed-and-not-released stay "
           "within the limits (and agree); when the limits are >= the peak of an independent reference model and no callback "
           "fails, after every operation exactly the events the model connects were processed, each exactly once. Non-trivial = "
           "the order makes an event wait for >= 2 unconnected parents AND a Check/Process failure hits an event that was itself "
           "waiting in the buffer or has a descendant waiting there (the F2 witness shape); for all-orders cases: at least one "
-          "order of the case is non-trivial. Distinct by hash of (events, operations, limits)."),
+          "order of the case is non-trivial. Distinct by hash of (events, operations, limits, released-callback yes/no). "
+          "Without a Released callback the at-most-once Check/Process, parents-first, Total()-within-limits, empty-after-Clear and liveness clauses "
+          "are judged; the release-accounting clauses cannot be observed (classes *without_released_callback; "
+          "failure_of_waiting_event_in_nested_cascade = a callback fails for a waiting copy two of whose parents were connected during the same "
+          "PushEvent, the later one a descendant of the earlier)."),
     assumptions=["TestC14Concurrent: the events of a parents-closed DAG are pushed from 2-4 goroutines (25 runs per drawn case, ample limits, nothing fails); only the completeness clause is judged there, per-copy clauses are judged by the sequential units and linearizability by C28", 
         "an event counts as connected exactly when the harness-owned Exists/Get say so (Process returned nil, or connected outside)",
         "callbacks are invoked synchronously by PushEvent/Clear (sequential driver)",
